@@ -84,3 +84,17 @@ Proof. vm_compute. reflexivity. Qed.
 Example C09_ex_optional_loop_accepted :
   check_all [(0, TObj [(true, TRef [1])]); (1, TObj [(true, TRef [1])])] (TRef [0]) = Some true.
 Proof. vm_compute. reflexivity. Qed.
+
+(* ---------- from the schema TEXTS (Schema/RecursionE2E.v): scanner -> loader -> the graph the checker sees -> check_all.
+   Whenever the pipeline reaches a verdict it is the inhabitation verdict of the graph the texts were loaded into; the
+   pipeline itself is run against Schema.Check on the texts of every generated graph by the C09 check. ---------- *)
+From JS Require Schema.RecursionE2E Schema.RecursionE2EProofs.
+Theorem C09_verdict_from_texts : forall optd root types v,
+  RecursionE2E.rec_e2e optd root types = RecursionE2E.RVerdict v ->
+  exists o r g,
+    RecursionE2E.load_tnode optd (map fst types) 0 root = inr (o, r) /\
+    RecursionE2E.load_env optd (map fst types) 0 (map snd types) = inr g /\
+    exists b, v = Some b /\
+      (b = true <-> (Inhabited g r /\ forall n body, lookup g n = Some body -> Inhabited g body)).
+Proof. exact RecursionE2EProofs.rec_e2e_verdict. Qed.
+Print Assumptions C09_verdict_from_texts.
